@@ -188,6 +188,29 @@ func (m *TlvModel) GenReadFrom(buf *bytes.Buffer) error {
 				err = nil
 
 				{{- if (eq $.Model.Ordered true)}}
+				// An element of a field's type that arrives after that field's position is not
+				// that field. It is treated like an unrecognized element and does not move the
+				// field cursor: otherwise the cursor would run past every remaining field (and
+				// every marker), the value would be read as if it were a list of elements, and
+				// whatever follows - critical or not - would be accepted without a look.
+				behind := false
+				switch typ {
+					{{- range $i, $f := $.Model.Fields}}
+					{{- if (ne $f.TypeNum 0)}}
+				case {{$f.TypeNum}}:
+					behind = progress + 1 > {{$i}}
+					{{- end}}
+					{{- end}}
+				}
+				if behind {
+					if !ignoreCritical && {{.IsCritical}} {
+						return nil, enc.ErrUnrecognizedField{TypeNum: typ}
+					}
+					if err = reader.Skip(int(l)); err != nil {
+						return nil, enc.ErrFailToParse{TypeNum: typ, Err: err}
+					}
+					continue
+				}
 				for handled := false; !handled && progress < {{len .Model.Fields}}; progress ++ {
 				{{- else}}
 				if handled := false; true {
